@@ -386,6 +386,45 @@ def mutate(data, rng):
     return b"".join(toks)
 
 
+def synth_cal_file(rng):
+    """a well-formed calibration file for a random type and random
+    dimensions 1..3 x 1..3 - including the shapes the type does not allow
+    (T types with more rows than columns, U types and E12 with fewer): every
+    matrix has the shape those dimensions call for, so only the loader's own
+    type / shape rule can refuse the file"""
+    import vcalfile as V
+    types = ["T8", "U8", "TE10", "UE10", "T16", "U16", "UE14", "E12"]
+    ctype = types[int(rng.integers(0, 8))]
+    r, c = int(rng.integers(1, 4)), int(rng.integers(1, 4))
+    F = int(rng.integers(1, 3))
+
+    def num():
+        return "%+.6e %+.6ej" % (rng.standard_normal(), rng.standard_normal())
+    cal = V.Cal()
+    cal.name, cal.type, cal.rows, cal.cols, cal.nfreq = "s", ctype, r, c, F
+    cal.z0_text = "+5.0e+01 +0.0e+00j"
+    cal.props = None
+    cal.freq_text = ["%.6e" % (1e9 * (k + 1)) for k in range(F)]
+    cal.text = []
+    for k in range(F):
+        d = {}
+        for name, shp in V.expected_shapes(ctype, r, c).items():
+            if len(shp) == 1:
+                d[name] = [num() for _ in range(shp[0])]
+            else:
+                d[name] = [[("~" if (ctype, name) in V.NO_DIAGONAL and i == j
+                             else num()) for j in range(shp[1])]
+                           for i in range(shp[0])]
+        cal.text.append(d)
+    cf = V.CalFile()
+    cf.props = None
+    cf.cals = [cal]
+    legacy = ctype == "E12" and rng.random() < 0.3
+    return V.write_text(cf, version="VNACAL 2.0" if legacy else
+                        str(rng.choice(["VNACal 1.0", "VNACAL 3.0"]))
+                        ).encode("latin-1")
+
+
 def loader_for(name):
     if name.endswith(".vnacal"):
         return "vnacal"
